@@ -75,6 +75,7 @@ func FuncID(f *ssa.Function) CalleeID {
 	if f.Origin() != nil {
 		f = f.Origin()
 	}
+	f = Logical(f)
 	pkg := ""
 	if f.Pkg != nil {
 		pkg = relPkg(f.Pkg.Pkg.Path())
